@@ -149,12 +149,14 @@ def cmp_atoms(A, B, tolp=g.TOL_POS, tolu=g.TOL_U, with_flag=True):
 
 def canon_sites(atoms, sizes):
     """Atoms grouped per site (block sizes), each block sorted by position: comparison modulo the order inside an orbit."""
+    def r5(v):
+        return round(float(v) % 1.0, 5) % 1.0
     out, i = [], 0
     for n in sizes:
         blk = atoms[i:i + n]
         i += n
-        out.append(sorted(((round(float(a["pos"][0]) % 1.0, 5) % 1.0, round(float(a["pos"][1]) % 1.0, 5) % 1.0, round(float(a["pos"][2]) % 1.0, 5) % 1.0),
-                           a["element"], round(float(a["occ"]), 9), tuple(round(float(v), 7) for r in a["U"] for v in r)) for a in blk)))
+        out.append(sorted((tuple(r5(v) for v in a["pos"]), a["element"], round(float(a["occ"]), 9),
+                           tuple(round(float(v), 7) for r in a["U"] for v in r)) for a in blk))
     return out
 
 
